@@ -17,7 +17,11 @@ func c15Reference(pk, blind, ctx []byte) ([]byte, bool) {
 	msg = append(msg, 0x00)
 	msg = append(msg, ctx...)
 	h := sha512.Sum512(msg)
-	r := edwards25519.NewScalar().SetBytes(h[:32])
+	// the 32 bytes as an integer mod l: zero-extended to the 64 bytes the wide reduction takes
+	// (deliberately not through Scalar.SetBytes, which is part of what is being checked)
+	var wide [64]byte
+	copy(wide[:], h[:32])
+	r := edwards25519.NewScalar().SetUniformBytes(wide[:])
 	p, err := (&edwards25519.Point{}).SetBytes(pk)
 	if err != nil {
 		return nil, false
